@@ -91,6 +91,7 @@ class Gen:
         self._foreign = 0          # >0 while processing a fragment owned by another unit
         self.deps = set()          # owner units of the foreign fragments included
         self.dropped_hints = []
+        self.inline = {}
 
     # ------------------------------------------------------------------ emit
     def emit(self, text, origin):
@@ -557,7 +558,12 @@ class Gen:
 
     def _prepare_body(self, it, kv, fid, fn, loops, hints, local_rw, path):
         body = it.body
+        pre_hits = {}
+        if getattr(self, 'inline', None):
+            body = self._inline_calls(body, pre_hits)
         body, hits = rules.apply(body, self, kv.get('rules', ''), fn_id=fid, local=local_rw)
+        for k2, v2 in pre_hits.items():
+            hits[k2] = hits.get(k2, 0) + v2
         fn['rule_hits'] = hits
         for k, v in hits.items():
             self.rule_hits[k] = self.rule_hits.get(k, 0) + v
@@ -656,6 +662,87 @@ class Gen:
         else:
             self.lines[k - 1] = self.lines[k - 1] + ' ensures false,'
 
+    def _inlinable(self, file, name):
+        """R18: a helper WITHOUT a contract (introduced by a change) whose body is one straight-line block -- no `return`, no `?`, no loop,
+        not recursive, plain `name: Type` parameters -- is replaced at its call sites by its body with the parameters bound to the
+        arguments (the meaning of a call); anything else is included as it is, without a contract."""
+        try:
+            it = rs.find_fn(read_repo(file), name, None, file)
+        except LookupError:
+            return None
+        body = it.body
+        code = ''.join(body[a:b] if k not in ('comment', 'str', 'char') else ' ' for k, a, b in rs.tokenize(body))
+        if re.search(r'\breturn\b|\?|\b(loop|while|for)\b|\bunsafe\b', code) or re.search(r'\b' + re.escape(name) + r'\s*\(', code):
+            return None
+        m = re.search(r'fn\s+' + re.escape(name) + r'\s*(<[^>]*>)?\s*\((.*)\)\s*(->.*)?$', rs.norm_ws(it.signature), re.S)
+        if not m or m.group(1):
+            return None
+        params = []
+        ptxt = m.group(2).strip()
+        if ptxt:
+            depth, cur, parts = 0, '', []
+            for ch in ptxt:
+                if ch in '(<[':
+                    depth += 1
+                elif ch in ')>]':
+                    depth -= 1
+                if ch == ',' and depth == 0:
+                    parts.append(cur)
+                    cur = ''
+                else:
+                    cur += ch
+            if cur.strip():
+                parts.append(cur)
+            for part in parts:
+                pm = re.match(r'\s*(mut\s+)?(\w+)\s*:\s*(.+?)\s*$', part, re.S)
+                if not pm or pm.group(2) == 'self':
+                    return None
+                params.append((pm.group(2), pm.group(3), bool(pm.group(1))))
+        return {'params': params, 'body': body, 'file': file, 'lines': [it.line_start, it.line_end], 'sha256': sha(it.text)}
+
+    def _inline_calls(self, text, hits):
+        for name, inl in self.inline.items():
+            k = 0
+            rx = re.compile(r'(?<![\w.:])' + re.escape(name) + r'\s*\(')
+            while True:
+                m = rx.search(text, k)
+                if not m:
+                    break
+                depth, q = 1, m.end()
+                while q < len(text) and depth:
+                    if text[q] == '(':
+                        depth += 1
+                    elif text[q] == ')':
+                        depth -= 1
+                    q += 1
+                args_txt = text[m.end():q - 1]
+                depth, cur, args = 0, '', []
+                for ch in args_txt:
+                    if ch in '([{':
+                        depth += 1
+                    elif ch in ')]}':
+                        depth -= 1
+                    if ch == ',' and depth == 0:
+                        args.append(cur)
+                        cur = ''
+                    else:
+                        cur += ch
+                if cur.strip():
+                    args.append(cur)
+                if len(args) != len(inl['params']):
+                    k = q
+                    continue
+                pre = ' '.join(f'let vin_{name}_{i} = {a.strip()};' for i, a in enumerate(args))
+                bind = ' '.join(f'let {"mut " if mu else ""}{pn}: {pt} = vin_{name}_{i};' for i, (pn, pt, mu) in enumerate(inl['params']))
+                one_line = ' '.join(l.strip() for l in inl['body'].split('\n') if not l.strip().startswith('//'))
+                repl = '{ ' + pre + ' { ' + bind + ' ' + one_line + ' } }'
+                repl += '\n' * text[m.start():q].count('\n')
+                text = text[:m.start()] + repl + text[q:]
+                key = f'R18:call of the contract-less helper `{name}` -> its body (parameters bound to the arguments)'
+                hits[key] = hits.get(key, 0) + 1
+                k = m.start() + len(repl)
+        return text
+
     def emit_auto_fn(self, file, name, props):
         src = read_repo(file)
         try:
@@ -689,9 +776,15 @@ class Gen:
         self.emit('use vstd::prelude::*;', ('gen', '', 0))
         self.emit('use std::io; use std::io::SeekFrom; use std::convert::TryFrom;', ('gen', '', 0))
         self.emit('verus! {', ('gen', '', 0))
+        self.inline = {}
+        for (file, name), props in sorted(self.auto_fns.items()):
+            inl = self._inlinable(file, name)
+            if inl:
+                self.inline[name] = inl
         self.include(self.tmpl_path, 'tmpl')
         for (file, name), props in sorted(self.auto_fns.items()):
-            self.emit_auto_fn(file, name, props)
+            if name not in self.inline:
+                self.emit_auto_fn(file, name, props)
         self.emit('} // verus!', ('gen', '', 0))
         self.emit('fn main() {}', ('gen', '', 0))
         return '\n'.join(self.lines) + '\n'
